@@ -23,7 +23,7 @@ def make_env(case):
     files = []
     texts = {}
     for path, items in case["files"].items():
-        texts[path] = pp.render_file(items, blank=case.get("blank", " "))
+        texts[path] = pp.render_file(items, blank=case.get("blank", " "), nl=case.get("nl", "\n"))
         files.append({"n": path, "items": items})
     fs = [{"p": p, "kind": "file"} for p in case["files"]]
     for p, kind in case.get("fs_extra", {}).items():
